@@ -202,6 +202,9 @@ pub struct MarketCase {
     pub t0: u64,
     /// (asset, op); Advance / Trading / ResetTradeVol / Reload act on the whole market
     pub ops: Vec<(u8, Op)>,
+    /// volume 0 is passed through unclamped (C14: differential between real objects, no volume clause)
+    #[serde(default)]
+    pub zero_vols: bool,
 }
 
 #[derive(Clone, Copy, Debug, Default)]
@@ -329,7 +332,7 @@ fn run_inner(case: &MarketCase, orc: MarketOracles, prop: &str, feat: &mut Marke
         let mut clamp = |bid: bool, vol: u32| -> u32 {
             let k = bid as usize;
             let avail = budget[a][k].saturating_sub(ops_left as u64 + 4).max(1);
-            let v = (vol.max(1) as u64).min(avail);
+            let v = (vol.max(if case.zero_vols { 0 } else { 1 }) as u64).min(avail);
             budget[a][k] = budget[a][k].saturating_sub(v);
             v as u32
         };
@@ -347,6 +350,7 @@ fn run_inner(case: &MarketCase, orc: MarketOracles, prop: &str, feat: &mut Marke
         match op {
             Op::Create { bid, vol, trader, price } | Op::CreatePlace { bid, vol, trader, price } => {
                 let placing = matches!(op, Op::CreatePlace { .. });
+                let price = &crate::ops::limit_price(*bid, *price, case.ticks[a]);
                 let v = clamp(*bid, *vol);
                 let on_grid = price.map_or(true, |p| p % case.ticks[a] == 0);
                 if !on_grid {
@@ -443,9 +447,10 @@ fn run_inner(case: &MarketCase, orc: MarketOracles, prop: &str, feat: &mut Marke
                 };
                 let o = pre[a].orders[id].clone();
                 let mut vol = *vol;
+                let price = &crate::ops::limit_price(o.bid, *price, case.ticks[a]);
                 if o.status == St::Active {
                     if let Some(v) = vol {
-                        vol = Some(if v > o.vol { o.vol.saturating_add(clamp(o.bid, v - o.vol)) } else { v.max(1) });
+                        vol = Some(if v > o.vol { o.vol.saturating_add(clamp(o.bid, v - o.vol)) } else { v.max(if case.zero_vols { 0 } else { 1 }) });
                     }
                     let np = price.unwrap_or(o.price);
                     let requeue = price.is_some() || vol.map_or(false, |v| v >= o.vol);
